@@ -16,6 +16,7 @@ def gen(rng, kind, subset, obs_subset, hetero):
                plain=[dy(rng, 1, 3), dy(rng), dy(rng)], pts=[[dy(rng) for _ in range(nv)] for _ in range(n)], w=rng.randint(1, 4) / 2,
                batched={k: [dy(rng) for _ in range(n)] for k in subset}, hetero=(prand(rng, nv, 1, 2) or {(0,) * nv: 1}) if hetero else None)
     cfg["rev_batch_keys"] = rng.random() < 0.5
+    cfg["flat_keys"] = [k for k in subset if rng.random() < 0.35]
     cfg["tmax"] = rng.choice([1.0, 2.0, 0.5, 3.0])        # the equations here ignore Tmax; a heterogeneous parameter is a function of the point the equation receives
     cfg["own_kind"] = {k: rng.choice(["float", "float", "pyint", "intarray"]) for k in KEYS}
     for j, k in enumerate(KEYS):
@@ -51,7 +52,8 @@ def build(cfg):
     order = list(cfg["batched"].items())
     if cfg.get("rev_batch_keys"):
         order = order[::-1]                      # the batch dictionary written in any key order, built directly (no helper sorts it)
-    pb = {k: col(v) for k, v in order} or None
+    flat = set(cfg.get("flat_keys") or [])        # a hand-built parameter batch may give one number per sample as a 1-D array
+    pb = {k: (jnp.array(v) if k in flat else col(v)) for k, v in order} or None
     ob = None
     if cfg.get("obs"):
         oeq = list(cfg["obs"]["eq"].items())
